@@ -49,6 +49,7 @@ def run(facts, rep, tier):
     rep.rule('LO.3', 'provenance: every pointer stored in the result is .code/.value of a table entry under the loop variable, or a fallback literal that itself occurs in the tables (English/en, United Kingdom/GB)')
     rep.rule('LO.5', 'selection: a table entry is chosen only by whole-string equality with the part (strcmp == 0, std::string / string_view ==, or strncmp / memcmp over n bytes together with a test that the entry '
                      'ends there); a bare strncmp(entry, part, n) == 0 also accepts every proper prefix of an entry and the empty part')
+    rep.rule('LO.7', 'get() keeps nothing that refers to the caller\'s string: no object with static or thread storage duration is given a pointer or a view (const char*, std::string_view) derived from the parameter')
     rep.rule('LO.4', 'tables: the counts are the array sizes; no null members')
     rep.assume('strstr/strlen/strcmp/memcpy contracts of libc; the input is a NUL-terminated string')
     f = facts.fn(f'{LI}::get')
@@ -344,6 +345,7 @@ def run(facts, rep, tier):
     if nfall >= 1 or exact: rep.check(nfall >= 1, 'LO.2', 'a fallback return exists', f.shortloc(), 'no fallback path', key='LO.2|nofallback', fn=f.name)
     _selection_rules(facts, rep, f)
     _terminator_rules(facts, rep, f)
+    _retention_rules(facts, rep, f)
     # LO.3: table provenance of the non-fallback assignments
     loops = [n for n in f.nodes() if n.k == 'rangefor']
     loopvars = {l.var['decl']: (l.n('range').qname or l.n('range').name if l.n('range') is not None and l.n('range').k == 'ref' else None) for l in loops}
@@ -869,3 +871,48 @@ def _terminator_rules(facts, rep, f):
                 why = (f'the last copy (`{st[1].text()[:40]}` bytes) went over earlier contents and no terminator was stored at that length' if isinstance(st, tuple) else 'on some path the last copy into the buffer went over earlier contents (no zero-fill of the whole array in between, no terminator stored at the copied length), or the buffer was never initialised')
                 rep.violation('LO.6', inst, node.shortloc(), why + ': a part that is shorter than what the buffer held before keeps the tail of the old contents (`eng_GB`: the country is compared as `GBg`), so a valid locale falls through to the fallback / an entry is matched by accident; with no zero behind the copy the read can also run off the end', key='LO.6|stale', fn=f.name)
         if bufs and nread == 0: rep.inconclusive('LO.6', f'buffer {v["name"]}', dn.shortloc(), 'no string read of the buffer found')
+
+
+def _retention_rules(facts, rep, f):
+    """LO.7: writes to objects with static / thread storage duration in get() and the helpers it reaches must not store a non-owning
+    reference (const char*, string_view) to the parameter's characters"""
+    scope = {}; work = [f]
+    while work:
+        g = work.pop()
+        if g.name in scope or len(scope) > 40: continue
+        scope[g.name] = g
+        for n in g.nodes():
+            if n.k == 'call' and n.callee_in_root:
+                for t in facts.resolve(n):
+                    if t.file == f.file and t.cfg is not None: work.append(t)
+    NONOWN = ('std::basic_string_view', 'const char *', 'char *')
+    def derived_from_param(x, fn, depth=0):
+        """does expression x (non-owning type) refer to storage reachable from a pointer / view parameter of fn?"""
+        for y in x.walk():
+            if y.k != 'ref': continue
+            ty = (y.d.get('decltype') or y.type or '').replace('const ', '', 1) if False else (y.d.get('decltype') or y.type or '')
+            if not any(t_ in ty for t_ in NONOWN): continue
+            if y.dk == 'param': return y
+            if y.dk == 'local' and depth < 4:
+                init = guards.single_assignment_init(fn, y.decl)
+                if init is not None:
+                    r = derived_from_param(init, fn, depth + 1)
+                    if r is not None: return r
+        return None
+    n7 = 0
+    for g in scope.values():
+        for n in g.nodes():
+            tgt = None; rhs = None
+            if n.k == 'binop' and n.op == '=' and n.n('lhs') is not None: tgt, rhs = n.n('lhs'), n.n('rhs')
+            elif n.k == 'call' and n.ck == 'op' and n.op == '=' and len([a for a in n.ns('args') if a is not None]) == 2: tgt, rhs = [a for a in n.ns('args') if a is not None]
+            if tgt is None or rhs is None: continue
+            roots = [y for y in tgt.walk() if y.k == 'ref' and y.dk == 'global' and not (y.d.get('decltype') or y.type or '').startswith('const ')]
+            if not roots: continue
+            n7 += 1
+            src = derived_from_param(rhs, g)
+            inst = f'{g.name.split("::")[-1]}(): what is stored in `{roots[0].name}` (static / thread storage) owns its characters'
+            if src is not None:
+                rep.violation('LO.7', inst, n.shortloc(), f'`{roots[0].name}` outlives the call and is given a pointer / view derived from the parameter `{src.name}`: when the caller reuses or frees that buffer the stored key changes with it '
+                              '(a later lookup of a different locale of the same length is answered from the stale entry, a freed buffer is read)', key='LO.7|retained-view', fn=g.name)
+            else: rep.ok('LO.7', inst, n.shortloc())
+    if n7 == 0: rep.ok('LO.7', 'get() and its helpers write no object with static or thread storage duration', f.shortloc())
